@@ -20,5 +20,5 @@ Theorem k_jitremove_nan_safe : forall args, Pre_jitremove_nan args ->
   forall fuel, safe_outcome (run fuel k_jitremove_nan args).
 Proof.
   intros args (d1 & d2 & ta & nan & -> & H1 & H2) fuel.
-  safe_start k_jitremove_nan ann_jitremove_nan. vc.
+  safe_start k_jitremove_nan ann_jitremove_nan. vc k_jitremove_nan ann_jitremove_nan.
 Qed.
